@@ -69,6 +69,10 @@ pub assume_specification [core::time::Duration::subsec_nanos] (d: &core::time::D
     u.prove(F, 'sub', 'impl Sub<NaiveTime> for NaiveTime {', cid='NaiveTime::Sub_NaiveTime__sub', rename='Sub_NaiveTime__sub')
     u.prove(F, 'add', 'impl Add<Duration> for NaiveTime {', cid='NaiveTime::Add_Duration__add', rename='Add_Duration__add')
     u.prove(F, 'sub', 'impl Sub<Duration> for NaiveTime {', cid='NaiveTime::Sub_Duration__sub', rename='Sub_Duration__sub')
+    u.prove(F, 'add_assign', 'impl AddAssign<Duration> for NaiveTime {', cid='NaiveTime::AddAssign_Duration__add_assign', rename='AddAssign_Duration__add_assign',
+            subst=[('*self + rhs', 'self.Add_Duration__add(rhs)', 'R6 operator re-pointed to the proved Add<Duration> body')])
+    u.prove(F, 'sub_assign', 'impl SubAssign<Duration> for NaiveTime {', cid='NaiveTime::SubAssign_Duration__sub_assign', rename='SubAssign_Duration__sub_assign',
+            subst=[('*self - rhs', 'self.Sub_Duration__sub(rhs)', 'R6 operator re-pointed to the proved Sub<Duration> body')])
     u.prove(F, 'add', 'impl Add<FixedOffset> for NaiveTime {', cid='NaiveTime::Add_FixedOffset__add', rename='Add_FixedOffset__add')
     u.prove(F, 'sub', 'impl Sub<FixedOffset> for NaiveTime {', cid='NaiveTime::Sub_FixedOffset__sub', rename='Sub_FixedOffset__sub')
     u.raw('}')
